@@ -98,4 +98,21 @@ def resultsSpec (ops : List Op) : List Res :=
     if isHandler o then ops.map (fun x => if isHandler x then .passed else .refused)
     else ops.map (fun x => if isHandler x then .swallowed else .accepted)
 
+/-! ### a given header whose name the stack in front of the raw responder uses as well -/
+
+/-- "every given header with its values in order": the given values occur on the wire in the given
+order (leftmost embedding); the result is what else the wire carries under that name -/
+def residual : List String → List String → Option (List String)
+  | w, [] => some w
+  | [], _ :: _ => none
+  | x :: w, g :: gs => if x == g then residual w gs else (residual w (g :: gs)).map (x :: ·)
+
+/-- the wire carries the given values in order, and whatever else it carries under that name is
+what the stack sends on its own (`base`: same exchange, definition without headers) - never
+something else, never less than given -/
+def givenHonoured (wire given base : List String) : Bool :=
+  match residual wire given with
+  | some rest => rest.all base.contains
+  | none => false
+
 end ConfModel.RawBodySpec
